@@ -153,10 +153,91 @@ def _same(a, b):
         return dump(a) == dump(b)
 
 
+_BINDERS = (ast.ListComp, ast.GeneratorExp, ast.SetComp, ast.DictComp, ast.Lambda)
+_alpha_cache = {}
+
+
+class _Alpha(ast.NodeTransformer):
+    """bound variables of comprehensions and lambdas get canonical names by nesting depth and position: `[f(x) for x in xs]` and
+    `[f(q) for q in xs]` are the same expression.  Metavariables of a pattern are left alone."""
+
+    def __init__(self):
+        self.depth = 0
+        self.env = {}
+
+    def _bind(self, names, visit):
+        saved = dict(self.env)
+        for i, nm in enumerate(names):
+            if not (nm.startswith('_') and len(nm) >= 2 and (nm[1].isupper() or nm == '__')):
+                self.env[nm] = 'bv%d_%d__' % (self.depth, i)
+        self.depth += 1
+        try:
+            return visit()
+        finally:
+            self.depth -= 1
+            self.env = saved
+
+    def visit_Name(self, n):
+        if n.id in self.env:
+            return ast.copy_location(ast.Name(id=self.env[n.id], ctx=n.ctx), n)
+        return n
+
+    def visit_arg(self, n):
+        if n.arg in self.env:
+            return ast.copy_location(ast.arg(arg=self.env[n.arg], annotation=None), n)
+        return n
+
+    def _comp(self, n):
+        # the first iterable is evaluated outside the comprehension's scope
+        first = self.visit(n.generators[0].iter)
+        names = []
+        for g in n.generators:
+            for x in ast.walk(g.target):
+                if isinstance(x, ast.Name) and x.id not in names:
+                    names.append(x.id)
+
+        def inner():
+            gens = []
+            for i, g in enumerate(n.generators):
+                gens.append(ast.comprehension(target=self.visit(g.target), iter=first if i == 0 else self.visit(g.iter),
+                                              ifs=[self.visit(c) for c in g.ifs], is_async=g.is_async))
+            if isinstance(n, ast.DictComp):
+                return ast.copy_location(ast.DictComp(key=self.visit(n.key), value=self.visit(n.value), generators=gens), n)
+            return ast.copy_location(type(n)(elt=self.visit(n.elt), generators=gens), n)
+        return self._bind(names, inner)
+
+    visit_ListComp = visit_GeneratorExp = visit_SetComp = visit_DictComp = _comp
+
+    def visit_Lambda(self, n):
+        names = [a.arg for a in n.args.posonlyargs + n.args.args + n.args.kwonlyargs]
+
+        def inner():
+            return ast.copy_location(ast.Lambda(args=self.visit(n.args), body=self.visit(n.body)), n)
+        return self._bind(names, inner)
+
+
+def alpha(e):
+    """e with the bound variables of comprehensions / lambdas renamed canonically (a copy; e itself when it has none)"""
+    k = id(e)
+    hit = _alpha_cache.get(k)
+    if hit is not None and hit[0] is e:
+        return hit[1]
+    if not any(isinstance(x, _BINDERS) for x in ast.walk(e)):
+        r = e
+    else:
+        import copy
+        r = ast.fix_missing_locations(_Alpha().visit(copy.deepcopy(e)))
+    if len(_alpha_cache) > 20000:
+        _alpha_cache.clear()
+    _alpha_cache[k] = (e, r)
+    return r
+
+
 def match(p, e, b=None):
-    """Match pattern AST p against expression AST e; returns bindings dict or None."""
+    """Match pattern AST p against expression AST e (modulo the names of comprehension / lambda variables); returns bindings dict
+    or None."""
     b = {} if b is None else b
-    r = _m(p, e, b)
+    r = _m(alpha(p), alpha(e), b)
     return r
 
 
